@@ -166,7 +166,7 @@ func (r *ecsRunner) Step(t []string) string {
 	case t[0] == "reg" && n == 1:
 		id := r.w.RegComponent(compInstance(r.ncomp + 1))
 		r.ncomp++
-		return strconv.FormatUint(uint64(id), 10)
+		return "c" + strconv.FormatUint(uint64(id), 10)
 	case t[0] == "rereg" && n == 2:
 		k, ok := nat(t[1])
 		if !ok {
@@ -175,7 +175,7 @@ func (r *ecsRunner) Step(t []string) string {
 		if k < 1 || k > r.ncomp {
 			return "bad-op"
 		}
-		return strconv.FormatUint(uint64(r.w.RegComponent(compInstance(k))), 10)
+		return "c" + strconv.FormatUint(uint64(r.w.RegComponent(compInstance(k))), 10)
 	case t[0] == "spawn":
 		ids, ok := nats(t[1:])
 		if !ok || !r.valid(ids) {
